@@ -106,6 +106,7 @@ NoVec == [nr |-> 0, src |-> <<>>, colid |-> <<>>]
 InitState(p, o, dev) ==
     [p |-> p, o |-> o, dev |-> dev, pc |-> "start", k |-> 0, path |-> "none", used |-> <<>>,
      rrows |-> <<>>, ret |-> <<>>, vals |-> <<>>, vec |-> NoVec, exc |-> "", at |-> "", trail |-> <<>>,
+     kobs |-> 0,           \* trace validation: the number of pairs the call returned (resolves the literal model's free choice of k)
      unspec |-> FALSE]     \* TRUE: a listed deviation makes the returned pairs unspecified (not eigenpairs)
 D(s, d) == d \in s.dev
 Raise(s, cls, where) == [s EXCEPT !.pc = "raised", !.exc = cls, !.at = where]
@@ -160,9 +161,15 @@ DoTakeVW(s) ==
 Uncapped(s) == \/ IsLb(s.o.api) /\ D(s, KF_C05_FallbackNumExceedsSize) /\ s.path = "sparseFallback"
                \/ s.o.api \in {"panel_lb", "conecyl_lb"} /\ D(s, KF_C05_PanelNumNotCapped)
                \/ s.o.api \in FreqApis /\ D(s, KF_C06_SparseNumExceedsSize)
+(* The property does not fix how many pairs come back: the literal wrapper may ask for any k with
+   1 <= k <= min(num_eigvalues, what the solver can give); the model checker takes today's choice capped, trace
+   validation takes the observed count when it lies in that range (so a repaired wrapper needs no change here). *)
+Free(s, cap) == IF s.kobs >= 1 /\ s.kobs <= Min2(s.o.num, cap) THEN s.kobs ELSE Min2(s.k, cap)
 AskK(s) == LET m == Len(s.rrows)
-           IN CASE Solver(s) = "eigsh" -> IF Uncapped(s) THEN s.k ELSE Min2(s.k, m - 1)
-                [] Solver(s) = "eigs"  -> IF Uncapped(s) THEN s.k ELSE Min2(s.k, m - 2)
+           IN CASE Solver(s) = "eigsh" -> IF Uncapped(s) THEN s.k ELSE Free(s, m - 1)
+                [] Solver(s) = "eigs"  -> IF Uncapped(s) THEN s.k ELSE Free(s, m - 2)
+                \* dense lb: today all m values come back; the literal wrapper may hand back any leading part
+                [] Solver(s) = "eigh"  -> IF ~D(s, KF_C05_NonPositiveTail) /\ s.kobs >= 1 /\ s.kobs <= m THEN s.kobs ELSE m
                 [] OTHER -> m
 
 (* the spectrum ids are those of the pencil reduced to the active amplitudes: defined iff rrows = active set *)
@@ -203,7 +210,9 @@ SolverOK(s, ret) ==
        /\ CASE Solver(s) = "eigsh" ->
                  /\ Len(ret) = kk /\ AscMu(p, ret)
                  /\ SelectionAssumed(p) => (rest = <<>> \/ NuLe(p, WorstNu(p, ret), BestNu(p, rest), OnePlusSlack))
-            [] Solver(s) = "eigh" -> Len(ret) = m /\ AscMu(p, ret)
+            [] Solver(s) = "eigh" -> /\ Len(ret) = kk /\ AscMu(p, ret)        \* kk < m: the leading part of eigh's list
+                                     /\ rest = <<>> \/ ret = <<>> \/
+                                           RLe(Mu(p, ret[Len(ret)]), RAdd(Mu(p, rest[1]), RMul(Slack, MuMax(p))))
             [] Solver(s) = "eigs" ->
                  /\ Len(ret) = kk
                  /\ rest = <<>> \/ \A a \in Range(ret) :       \* sp ascending: rest's largest mu is its last
@@ -224,7 +233,7 @@ CanonRet(s, mode) ==
         kk == AskK(s)
         desc(S) == LET a == AscSeq(S, m) IN Ev([j \in 1..Len(a) |-> a[Len(a) + 1 - j]])
     IN CASE Solver(s) = "eigsh" -> AscSeq({ i \in 1..m : CayleyRank(p, i) < kk }, m)
-         [] Solver(s) = "eigh"  -> AscSeq(1..m, m)
+         [] Solver(s) = "eigh"  -> AscSeq(1..kk, m)
          [] Solver(s) = "eigs"  -> Permute(desc((m - kk + 1)..m), mode)      \* canonical: ascending omega
          [] OTHER               -> Permute(desc(1..m), mode)
 OrderModes(s) == IF Solver(s) \in {"eigs", "eig"} THEN {"canon", "rev", "swap12", "rot"} ELSE {"canon"}
